@@ -4,9 +4,11 @@ import math
 
 from harness.core import pool, tb
 
-PROOF_MODULE = "OdeVerif.Proofs.C12"
+PROOF_MODULE = ["OdeVerif.Proofs.C12", "OdeVerif.Proofs.RefineIntegrator"]
+GENERATED = ['PyIntegrator']
 THEOREMS = ["OdeVerif.C12.setSpikeTimes_sorted", "OdeVerif.C12.setSpikeTimes_grouped", "OdeVerif.C12.getValue_history_independent",
-            "OdeVerif.C12.spec_zero", "OdeVerif.C12.spec_flow", "OdeVerif.C12.spec_jump"]
+            "OdeVerif.C12.spec_zero", "OdeVerif.C12.spec_flow", "OdeVerif.C12.spec_jump",
+            "OdeVerif.Refine.getValue_refines", "OdeVerif.Refine.mergeSpikes_refines", "OdeVerif.Refine.setSpikeTimes_refines"]
 LEVEL = "proof"
 
 # analytic solver dictionaries used by the recorder runs (hand-written: the recorder never evaluates them)
